@@ -16,7 +16,6 @@ Proof. unfold s_add. destruct (s_is_complete S c); reflexivity. Qed.
 Section FitMain.
 Variables (C : circuit) (n : nat) (t : nat) (vals : list Z).
 Hypothesis HQ : WFQ C n.
-Hypothesis Hdup : nodup_children C = true.
 Let d := build C n.
 
 Notation valid := (valid C).
@@ -215,8 +214,9 @@ Proof.
       - intros x Hx. apply in_map_iff in Hx. destruct Hx as [c [<- Hc]].
         clear - HF' Hc. induction HF' as [|c0 r cs rs [Hp _] HF IH]; [destruct Hc|].
         destruct Hc as [<-|Hc]; [exact Hp|now apply IH]. }
-    assert (Hcsnd : NoDup cs).
-    { pose proof (children_nodup C Hdup i Hi) as H. now rewrite E in H. }
+    assert (Hcsnd : pairwise disjointb (map (fun c0 => nth c0 (varss C) []) cs) = true).
+    { pose proof (wf_dec C n (wfq_wf C n HQ)) as Hdec. unfold decomposable in Hdec. rewrite forallb_forall in Hdec.
+      specialize (Hdec _ (node_in C i Hi)). now rewrite E in Hdec. }
     assert (HVi : forall v, In v (V i) <-> exists c, In c cs /\ In v (V c)).
     { intros v. rewrite (V_unfold C n HQ i Hi), E. cbn [vars_node]. rewrite in_concat. split.
       - intros [L [HL Hv]]. apply in_map_iff in HL. destruct HL as [c [<- Hc]]. now exists c.
@@ -224,14 +224,15 @@ Proof.
     assert (Hgen : forall cs0 rs0, Forall2 (fun c r => 0 < cnt C c /\ match r with
                                      | WithSample sm => NodeInvF c (WithSample sm)
                                      | _ => forall v, ~ In v (V c)
-                                     end) cs0 rs0 -> incl cs0 cs -> NoDup cs0 ->
+                                     end) cs0 rs0 -> incl cs0 cs -> pairwise disjointb (map (fun c0 => nth c0 (varss C) []) cs0) = true ->
               Forall (GoodF C n t i cs) (samples_of rs0) /\ NoDup (flat_map s_vars (samples_of rs0)) /\
               (forall v, In v (flat_map s_vars (samples_of rs0)) <-> exists c, In c cs0 /\ In v (V c)) /\
               (samples_of rs0 <> [] -> exists c v, In c cs0 /\ In v (V c))).
     { induction 1 as [|c r cs0 rs0 [Hcp Hcr] HF0 IH]; intros Hinc Hnd0.
       - cbn. split; [constructor|]. split; [constructor|]. split; [|congruence].
         intros v. split; [intros []|intros [c [[] _]]].
-      - inversion Hnd0 as [|? ? Hnotin Hnd1]; subst.
+      - cbn [map pairwise] in Hnd0. apply andb_true_iff in Hnd0. destruct Hnd0 as [Hnotin Hnd1].
+        rewrite forallb_forall in Hnotin.
         destruct (IH (fun x Hx => Hinc x (or_intror Hx)) Hnd1) as [G1 [G2 [G3 G4]]].
         assert (Hc : In c cs) by (apply Hinc; now left).
         destruct r as [| |S]; cbn [samples_of flat_map app] in *.
@@ -263,8 +264,8 @@ Proof.
             -- intros v Hv. apply Hvs in Hv. exact (and_vars C n HQ i cs c Hi E Hc v Hv).
           * apply NoDup_app_intro; [apply HS|exact G2|].
             intros v Hv Hv'. apply Hvs in Hv. apply G3 in Hv'. destruct Hv' as [c0 [Hc0 Hv0']].
-            assert (Hne0 : c <> c0) by (intros ->; contradiction).
-            exact (decomp_disjoint C n HQ i cs c c0 Hi E Hc (Hinc c0 (or_intror Hc0)) Hne0 v Hv Hv0').
+            assert (Hd0 : disjointb (nth c (varss C) []) (nth c0 (varss C) []) = true) by (apply Hnotin; exact (in_map (fun c1 => nth c1 (varss C) []) cs0 c0 Hc0)).
+            exact (proj1 (disjointb_spec _ _) Hd0 v Hv Hv0').
           * intros v. rewrite in_app_iff, G3, Hvs. split.
             -- intros [H|[c0 [H1 H2]]]; [exists c; split; [now left|exact H]|exists c0; split; [now right|exact H2]].
             -- intros [c0 [[<-|H1] H2]]; [now left|right; now exists c0].
@@ -389,7 +390,7 @@ Qed.
 Lemma fit_root : exists ps res, partial_samples_fit d t vals = Some ps /\
   nth (root C) ps None = Some res /\ NodeInvF (root C) res.
 Proof.
-  apply (pass_root C n HQ Hdup NodeInvF (partial_sample_fit d t vals) andres_fit orres_fit).
+  apply (pass_root C n HQ NodeInvF (partial_sample_fit d t vals) andres_fit orres_fit).
   - intros i ps. unfold partial_sample_fit. change (circ d) with C. change (nv d) with n.
     destruct (nth i C FalseN); reflexivity.
   - exact lit_node_fit.
